@@ -10,7 +10,7 @@ import ast
 
 from ..lattice import ir_family, reaching_classes
 from ..model import call_name, own_nodes, unparse
-from ..pathcond import path_info
+from ..pathcond import assigned_alternatives, path_info
 
 PROP = 'C20'
 GEN = 'stone.frontend.ir_generator.IRGenerator'
@@ -192,9 +192,39 @@ def run(pm, ctx):
               'doc parser collects types of :field:, :type: and routes of :route:', pd.loc,
               msg='doc reference kinds collected: %s' % sorted(tags),
               key='C20-R1|%s|tags' % pd.qualname)
+    # a route found in a doc is recorded under the namespace it was looked up in
+    from ..dataflow import defs as _defs
+    dpd = _defs(pd.node)
+    adds = [n for n in own_nodes(pd.node) if isinstance(n, ast.Call) and
+            isinstance(n.func, ast.Attribute) and n.func.attr == 'add' and
+            isinstance(n.func.value, ast.Subscript) and unparse(n.func.value.value) == 'routes']
+    okr = len(adds) == 1
+    if okr:
+        key = unparse(adds[0].func.value.slice)
+        arg = adds[0].args[0]
+        srcs = [unparse(v) for v in dpd.all_values(arg.id)] if isinstance(arg, ast.Name) else []
+        okr = key.endswith('.name') and bool(srcs) and all(
+            s_.startswith(key[:-len('.name')] + '.routes_by_name[') for s_ in srcs)
+    ctx.check('C20-R1', okr, 'doc parser files a referenced route under the namespace that owns it',
+              pd.loc, msg='parse_data_types_and_routes_from_doc_ref records a route under a '
+                          'namespace other than the one it was looked up in: the filter then '
+                          'keeps a same-named route of the wrong namespace (or raises KeyError)',
+              key='C20-R1|%s|route-owner' % pd.qualname)
 
     # ---------------- R2
     flt = pm.func(GEN + '._filter_namespaces_by_route_whitelist')
+    # routes are carried as text between the closure and the rebuild: what is written with
+    # name_with_version() is what parse_route_name_and_version() reads back
+    reprs = [leaf for leaf, _ in assigned_alternatives(flt.node, 'output_route_reprs')]
+    enc_ok = len(reprs) == 1 and isinstance(reprs[0], ast.ListComp) and \
+        isinstance(reprs[0].elt, ast.Call) and call_name(reprs[0].elt) == 'name_with_version'
+    dec_ok = any(isinstance(c, ast.Call) and call_name(c) == 'parse_route_name_and_version'
+                 for c in own_nodes(flt.node))
+    ctx.check('C20-R2', enc_ok and dec_ok, 'kept routes are re-identified by name and version '
+              '(name_with_version / parse_route_name_and_version)', flt.loc,
+              msg='the whitelist rebuild encodes kept routes as %s but decodes them with '
+                  'parse_route_name_and_version: a doc-referenced `r:2` is rebuilt as version 1'
+                  % [unparse(r)[:60] for r in reprs], key='C20-R2|%s|route-repr' % flt.qualname)
     ns_cls = pm.cls(API + '.ApiNamespace')
     init = ns_cls.methods['__init__']
     lists = [unparse(n.targets[0])[5:] for n in own_nodes(init.node)
